@@ -58,7 +58,7 @@ def transcript_lines(h, ctx=None, as_file=None, tag=""):
 
 def generate(tier, seed):
     rng = C.rng_for(seed, "C19")
-    n = 500 if tier == "quick" else 12000
+    n = 900 if tier == "quick" else 30000
     hs = [history(rng) for _ in range(n)]
     lines, groups = [], []
     for k, h in enumerate(hs):
